@@ -275,3 +275,70 @@ pub proof fn lemma_ido_pcode_bin_wf(op: BinOpType, x: Bitvector, y: Bitvector)
         _ => {}
     }
 }
+
+/// the exact content of the candidate list `possible_bounds` of IntervalDomain::signed_mul: the non-overflowing
+/// products lower*lower, lower*upper, upper*lower, upper*upper of the hints, in this order
+pub open spec fn ido_mul_ok(a: Option<Bitvector>, b: Option<Bitvector>) -> bool {
+    a is Some && b is Some && ia_mul_fits(a->Some_0, b->Some_0)
+}
+pub open spec fn ido_b2i(c: bool) -> int { if c { 1 } else { 0 } }
+/// ... after the first n of the four blocks
+pub open spec fn ido_mul_list_n(a: IntervalDomain, b: IntervalDomain, pb: Seq<Bitvector>, n: int) -> bool {
+    let c1 = n >= 1 && ido_mul_ok(a.widening_lower_bound, b.widening_lower_bound);
+    let c2 = n >= 2 && ido_mul_ok(a.widening_lower_bound, b.widening_upper_bound);
+    let c3 = n >= 3 && ido_mul_ok(a.widening_upper_bound, b.widening_lower_bound);
+    let c4 = n >= 4 && ido_mul_ok(a.widening_upper_bound, b.widening_upper_bound);
+    let i2 = ido_b2i(c1);
+    let i3 = i2 + ido_b2i(c2);
+    let i4 = i3 + ido_b2i(c3);
+    &&& pb.len() == i4 + ido_b2i(c4)
+    &&& (c1 ==> pb[0] == bv_mul(a.widening_lower_bound->Some_0, b.widening_lower_bound->Some_0))
+    &&& (c2 ==> pb[i2] == bv_mul(a.widening_lower_bound->Some_0, b.widening_upper_bound->Some_0))
+    &&& (c3 ==> pb[i3] == bv_mul(a.widening_upper_bound->Some_0, b.widening_lower_bound->Some_0))
+    &&& (c4 ==> pb[i4] == bv_mul(a.widening_upper_bound->Some_0, b.widening_upper_bound->Some_0))
+}
+pub open spec fn ido_mul_list(a: IntervalDomain, b: IntervalDomain, pb: Seq<Bitvector>) -> bool { ido_mul_list_n(a, b, pb, 4) }
+
+/// from "the chosen hint dominates every list element beyond the bound" to "... every candidate beyond the bound"
+pub proof fn lemma_ido_mul_closest_lower(a: IntervalDomain, b: IntervalDomain, pb: Seq<Bitvector>, bound: int, lb: Option<Bitvector>)
+    requires ido_mul_list(a, b, pb),
+        forall|j: int| 0 <= j < pb.len() && (#[trigger] pb[j]).s() < bound ==> lb is Some && lb->Some_0.s() >= pb[j].s(),
+    ensures forall|h: Bitvector| ido_mul_cand(a, b, h) && h.s() < bound ==> lb is Some && lb->Some_0.s() >= h.s(),
+{
+    assert forall|h: Bitvector| ido_mul_cand(a, b, h) && h.s() < bound implies lb is Some && lb->Some_0.s() >= h.s() by {
+        let c1 = ido_mul_ok(a.widening_lower_bound, b.widening_lower_bound);
+        let c2 = ido_mul_ok(a.widening_lower_bound, b.widening_upper_bound);
+        let c3 = ido_mul_ok(a.widening_upper_bound, b.widening_lower_bound);
+        let i2 = ido_b2i(c1);
+        let i3 = i2 + ido_b2i(c2);
+        let i4 = i3 + ido_b2i(c3);
+        if ido_mul_cand1(a.widening_lower_bound, b.widening_lower_bound, h) { assert(pb[0] == h); }
+        else if ido_mul_cand1(a.widening_lower_bound, b.widening_upper_bound, h) { assert(pb[i2] == h); }
+        else if ido_mul_cand1(a.widening_upper_bound, b.widening_lower_bound, h) { assert(pb[i3] == h); }
+        else { assert(pb[i4] == h); }
+    }
+}
+pub proof fn lemma_ido_mul_closest_upper(a: IntervalDomain, b: IntervalDomain, pb: Seq<Bitvector>, bound: int, ub: Option<Bitvector>)
+    requires ido_mul_list(a, b, pb),
+        forall|j: int| 0 <= j < pb.len() && (#[trigger] pb[j]).s() > bound ==> ub is Some && ub->Some_0.s() <= pb[j].s(),
+    ensures forall|h: Bitvector| ido_mul_cand(a, b, h) && h.s() > bound ==> ub is Some && ub->Some_0.s() <= h.s(),
+{
+    assert forall|h: Bitvector| ido_mul_cand(a, b, h) && h.s() > bound implies ub is Some && ub->Some_0.s() <= h.s() by {
+        let c1 = ido_mul_ok(a.widening_lower_bound, b.widening_lower_bound);
+        let c2 = ido_mul_ok(a.widening_lower_bound, b.widening_upper_bound);
+        let c3 = ido_mul_ok(a.widening_upper_bound, b.widening_lower_bound);
+        let i2 = ido_b2i(c1);
+        let i3 = i2 + ido_b2i(c2);
+        let i4 = i3 + ido_b2i(c3);
+        if ido_mul_cand1(a.widening_lower_bound, b.widening_lower_bound, h) { assert(pb[0] == h); }
+        else if ido_mul_cand1(a.widening_lower_bound, b.widening_upper_bound, h) { assert(pb[i2] == h); }
+        else if ido_mul_cand1(a.widening_upper_bound, b.widening_lower_bound, h) { assert(pb[i3] == h); }
+        else { assert(pb[i4] == h); }
+    }
+}
+
+/// the operations IntervalDomain::bin_op evaluates only on constants (exactly) and answers `Top` otherwise
+pub open spec fn ido_generic_binop(op: BinOpType) -> bool {
+    !(op is Piece || op is IntAdd || op is IntSub || op is IntMult || op is IntLeft)
+}
+pub open spec fn ido_const(v: Bitvector) -> Interval { Interval { start: v, end: v, stride: 0 } }
